@@ -185,6 +185,9 @@ pub fn replay(args: &[String]) -> i32 {
     let nshards = arg_u64(args, "--nshards", 1);
     let skip_to = arg_u64(args, "--skip-to", 0);
     let seed = arg_u64(args, "--seed", 1);
+    // --threads 1: every step runs on a fresh OS thread (a value is created on one thread, mutated on another, dropped on a third),
+    // and the values left at the end are handed to concurrent threads that read them in full and drop them after a barrier
+    let threaded = arg_u64(args, "--threads", 0) == 1;
     let mut inflight = Inflight::new(arg(args, "--inflight"));
     let mut mism: Vec<J> = Vec::new();
     let mut counts = std::collections::HashMap::<String, u64>::new();
@@ -211,7 +214,7 @@ pub fn replay(args: &[String]) -> i32 {
         for (i, op) in hist.iter().enumerate() {
             steps += 1;
             if op["op"] == "mut" || op["op"] == "append" { had_mut_on_parsed = true; }
-            let r = catch(|| step(&mut w, op, how));
+            let r = if threaded { std::thread::scope(|sc| sc.spawn(|| catch(|| step(&mut w, op, how))).join().unwrap_or_else(|_| Err("thread died".into()))) } else { catch(|| step(&mut w, op, how)) };
             let problem = match r { Ok(Ok(())) => None, Ok(Err(e)) => Some(e), Err(p) => Some(format!("panic: {p}")) };
             let mut why = problem;
             let mut arena_mismatch = false;
@@ -233,6 +236,28 @@ pub fn replay(args: &[String]) -> i32 {
             }
         }
         if had_mut_on_parsed { promos += 1; }
+        if threaded && !failed {
+            // concurrent readers + droppers: each remaining value goes to its own thread (the slot's clone stays with a second thread),
+            // all start together, read the whole value, then drop it; the expectation is the model's last observation
+            let last = &obs[hist.len() - 1]["m"];
+            let mut jobs: Vec<(String, Value)> = Vec::new();
+            for (i, sl) in w.slots.iter_mut().enumerate() { if let Some(v) = sl.take() { let name = format!("s{}", i + 1); jobs.push((name.clone(), v.clone())); jobs.push((name, v)); } }
+            let n = jobs.len();
+            if n > 0 {
+                let barrier = std::sync::Barrier::new(n);
+                let bad: Vec<String> = std::thread::scope(|sc| {
+                    let hs: Vec<_> = jobs.into_iter().enumerate().map(|(k, (name, v))| { let b = &barrier; let want = norm(&last[&name]); sc.spawn(move || {
+                        b.wait();
+                        let got = catch(|| plain(&v)).unwrap_or_else(|p| json!({"t":"panic","msg":p}));
+                        if k % 2 == 0 { drop(v); std::thread::yield_now(); } else { std::thread::yield_now(); drop(v); }
+                        if got != want { Some(format!("thread {k}: slot {name} read as {got} but the reference model says {want}")) } else { None }
+                    }) }).collect();
+                    hs.into_iter().filter_map(|h| h.join().unwrap_or(Some("reader thread died".into()))).collect()
+                });
+                if let Some(b) = bad.into_iter().next() { failed = true; if mism.len() < 40 { mism.push(json!({"suite":"dom-replay","class":"dom","step":hist.len(),"hist":hist,"why":format!("concurrent read/drop phase: {b}"),"line":li})); } }
+                if !failed && w.live() != 0 { failed = true; if mism.len() < 40 { mism.push(json!({"suite":"dom-replay","class":"arena","step":hist.len(),"hist":hist,"why":format!("after every thread dropped its values {} arenas are still alive", w.live()),"line":li})); } }
+            }
+        }
         drop(w);
         // all values dropped: the heap returns exactly to its level before the history (AllDroppedEmpty)
         let b1 = live();
